@@ -267,7 +267,7 @@ def _mk_c01(tier, seed):
 
 def _mk_c12(tier, seed):
     import scenarios
-    return scenarios.c12md5_jobs(tier, seed)
+    return scenarios.c12md5_jobs(tier, seed) + scenarios.c18q_jobs(tier, seed)
 
 
 def _mk_c03(tier, seed):
